@@ -1641,7 +1641,7 @@ Theorem write_svg_two : forall matrix align size dark light o z doc,
   write_svg matrix align size (two_colors (Some dark) light) o = Ok doc ->
   let b := get_border size size (so_border o) in
   let m := size + 2 * b in
-  let bg := (match light with Some _ => true | None => false end) && negb (so_draw_transparent o) in
+  let bg := (match light with Some _ => true | None => false end) in
   let grp := negb (z =? 1) && bg in
   let p := lit "<path" ++ (if grp then [] else scale_info_of z) ++ clspart_of o in
   0 < z /\ (match so_border o with Some b' => 0 <= b' | None => True end) /\
@@ -1670,25 +1670,19 @@ Proof.
   split; [reflexivity|].
   assert (Hld : ocolor_eqb light (Some dark) = false) by (rewrite ocolor_eqb_sym; exact Hdl).
   destruct light as [lc|].
-  - destruct (so_draw_transparent o) eqn:Et.
-    + (* light colour but draw_transparent: no background *)
-      cbn [andb negb od_del filter fst ocolor_eqb map_res svg_color] in H.
-      destruct (color_to_webcolor dark (css3_of o)) as [wd|] eqn:Ewd; [|discriminate]. cbn [bind fst snd] in H.
-      cbn [andb] in H. rewrite andb_false_r in H.
-      exists wd. split; [reflexivity|]. exists []. split; [reflexivity|].
-      apply Ok_inj in H. subst doc p grp bg. cbn [andb negb]. rewrite ?andb_false_r. reflexivity.
-    + cbn [andb negb] in H. rewrite andb_true_r in H.
-      cbn [od_set] in H. rewrite Hld in H.
-      cbn [od_del filter fst ocolor_eqb negb map_res svg_color] in H.
-      destruct (color_to_webcolor dark (css3_of o)) as [wd|] eqn:Ewd; [|discriminate]. cbn [bind fst snd] in H.
-      destruct (color_to_webcolor lc (css3_of o)) as [wl|] eqn:Ewl; [|discriminate]. cbn [bind fst snd] in H.
-      cbn [od_get] in H. rewrite Hld, ocolor_eqb_refl in H. cbn [od_set] in H. rewrite Hld, ocolor_eqb_refl in H.
-      cbn [map snd] in H.
-      exists wd. split; [reflexivity|].
-      exists [bg_fixup m (path_text p (Some wl) [(0, 0, m)])]. split.
-      * subst p grp bg. cbn [andb negb]. rewrite ?andb_true_r. exists lc, wl. auto.
-      * apply Ok_inj in H. subst doc p grp bg. cbn [andb negb]. rewrite ?andb_true_r. reflexivity.
-  - cbn [andb negb] in H. rewrite andb_false_r in H.
+  - (* a light colour: the background path is always there (draw_transparent only keeps / drops the key None) *)
+    cbn [andb negb orb] in H. rewrite ?andb_true_r in H.
+    cbn [od_set] in H. rewrite Hld in H.
+    destruct (so_draw_transparent o); cbn [od_del filter fst ocolor_eqb negb map_res svg_color] in H.
+    all: destruct (color_to_webcolor dark (css3_of o)) as [wd|] eqn:Ewd; [|discriminate]; cbn [bind fst snd] in H.
+    all: destruct (color_to_webcolor lc (css3_of o)) as [wl|] eqn:Ewl; [|discriminate]; cbn [bind fst snd] in H.
+    all: cbn [od_get] in H; rewrite Hld, ocolor_eqb_refl in H; cbn [od_set] in H; rewrite Hld, ocolor_eqb_refl in H.
+    all: cbn [map snd] in H.
+    all: exists wd; (split; [reflexivity|]).
+    all: exists [bg_fixup m (path_text p (Some wl) [(0, 0, m)])]; split.
+    1,3: subst p grp bg; cbn [andb negb]; rewrite ?andb_true_r; exists lc, wl; auto.
+    all: apply Ok_inj in H; subst doc p grp bg; cbn [andb negb]; rewrite ?andb_true_r; reflexivity.
+  - cbn [andb negb orb] in H. rewrite ?andb_false_r in H.
     destruct (so_draw_transparent o); cbn [od_del filter fst ocolor_eqb negb map_res svg_color snd] in H.
     all: destruct (color_to_webcolor dark (css3_of o)) as [wd|] eqn:Ewd; [|discriminate]; cbn [bind fst snd map] in H;
     exists wd; (split; [reflexivity|]); exists []; (split; [reflexivity|]);
@@ -2347,7 +2341,7 @@ Theorem svg_read_two : forall matrix align size dark light o z doc,
   write_svg matrix align size (two_colors (Some dark) light) o = Ok doc ->
   let b := border_of size o in
   let m := size + 2 * b in
-  let bg := (match light with Some _ => true | None => false end) && negb (so_draw_transparent o) in
+  let bg := (match light with Some _ => true | None => false end) in
   0 < z /\ 0 <= b /\
   exists wd, color_to_webcolor dark (css3_of o) = Ok wd /\
   exists paths, read_svg doc = Some (final_doc o (2 * (m * z)) (unit_of o) paths) /\
@@ -2473,8 +2467,7 @@ Proof.
   assert (Hsc : stroke_cells dp = Some (rows_dark matrix b b)).
   { rewrite <- Hcells. apply (stroke_cells_abs _ Hok). reflexivity. }
   assert (Hfilter : filter stroked paths = [dp]).
-  { cbv zeta in Hpaths. destruct light as [lc0|]; [destruct (so_draw_transparent o)|]; cbn [andb negb] in Hpaths.
-    - subst paths. reflexivity.
+  { cbv zeta in Hpaths. destruct light as [lc0|]; cbn [andb negb] in Hpaths.
     - destruct Hpaths as (lc & wl & _ & _ & [-> | ->]); reflexivity.
     - subst paths. reflexivity. }
   exists (final_doc o (2 * (m * z)) (unit_of o) paths), dp, (rows_dark matrix b b).
@@ -2510,11 +2503,10 @@ Theorem svg_page : forall matrix align size dark light o z doc,
     (* a requested light colour fills the whole page *)
     match light with
     | Some lc =>
-        if so_draw_transparent o then filter filled (d_paths d) = []
-        else exists pf wl, color_to_webcolor lc (css3_of o) = Ok wl /\
-               filter filled (d_paths d) = [pf] /\ p_fill pf = Some (wc_text wl) /\ p_stroke pf = None /\
-               fill_rect pf = Some (0, 0, 2 * m, 2 * m) /\ path_scale pf = Some (2 * z) /\
-               (2 * m) * (2 * z) / 2 = W
+        exists pf wl, color_to_webcolor lc (css3_of o) = Ok wl /\
+          filter filled (d_paths d) = [pf] /\ p_fill pf = Some (wc_text wl) /\ p_stroke pf = None /\
+          fill_rect pf = Some (0, 0, 2 * m, 2 * m) /\ path_scale pf = Some (2 * z) /\
+          (2 * m) * (2 * z) / 2 = W
     | None => filter filled (d_paths d) = []
     end.
 Proof.
@@ -2537,13 +2529,11 @@ Proof.
   { unfold W. replace (2 * m * (2 * z)) with (2 * (m * z) * 2) by lia. apply Z.div_mul. lia. }
   cbn [d_paths final_doc]. cbv zeta in Hpaths.
   destruct light as [lc|]; cbn [andb] in Hpaths.
-  - destruct (so_draw_transparent o); cbn [negb] in Hpaths.
-    + subst paths. repeat split; reflexivity.
-    + destruct Hpaths as (lc' & wl & Hl & Hwl & Hp). inversion Hl; subst lc'.
-      assert (Hstroke : filter stroked paths = [dp]) by (destruct Hp as [-> | ->]; reflexivity).
-      split; [exact Hstroke|]. split; [reflexivity|]. split; [reflexivity|].
-      exists (bg_rec (scales_of z) wl (rect_segs m)), wl.
-      split; [exact Hwl|]. split; [destruct Hp as [-> | ->]; reflexivity|]. repeat split; auto.
+  - destruct Hpaths as (lc' & wl & Hl & Hwl & Hp). inversion Hl; subst lc'.
+    assert (Hstroke : filter stroked paths = [dp]) by (destruct Hp as [-> | ->]; reflexivity).
+    split; [exact Hstroke|]. split; [reflexivity|]. split; [reflexivity|].
+    exists (bg_rec (scales_of z) wl (rect_segs m)), wl.
+    split; [exact Hwl|]. split; [destruct Hp as [-> | ->]; reflexivity|]. repeat split; auto.
   - subst paths. repeat split; reflexivity.
 Qed.
 Print Assumptions svg_page.
@@ -2569,8 +2559,7 @@ Proof.
   exists (final_doc o (2 * ((size + 2 * border_of size o) * z)) (unit_of o) paths), dp.
   split; [exact Hread|]. repeat (split; [reflexivity|]). split; [|reflexivity].
   cbn [d_paths final_doc].
-  cbv zeta in Hpaths. destruct light as [lc0|]; [destruct (so_draw_transparent o)|]; cbn [andb negb] in Hpaths.
-  - subst paths. reflexivity.
+  cbv zeta in Hpaths. destruct light as [lc0|]; cbn [andb negb] in Hpaths.
   - destruct Hpaths as (lc & wl & _ & _ & [-> | ->]); reflexivity.
   - subst paths. reflexivity.
 Qed.
